@@ -610,13 +610,13 @@ Qed.
     per frequency, and entry w equals what on-demand evaluation of a (non-purged) computed object returns for freqs[w]. *)
 Theorem table_eq_on_demand g tl clear (ps : list part_in) (freqs : list (K * K * K)) :
   exists table s' sx,
-    gf_compute K NO true g tl clear freqs (gf_prepared K ps) = Done (table, s') /\
-    gf_compute K NO true g tl false [] (gf_prepared K ps) = Done ([], sx) /\
+    gf_compute_gen K NO true true g tl clear freqs (gf_prepared K ps) = Done (table, s') /\
+    gf_compute_gen K NO true true g tl false [] (gf_prepared K ps) = Done ([], sx) /\
     length table = length freqs /\
     forall w f, nth_error freqs w = Some f ->
       gf_value K NO tl sx (fst (fst f)) (snd (fst f)) (snd f) = Done (nth w table 0).
 Proof.
-  unfold gf_compute, gf_prepared. cbn [g_status g_vanishing g_parts].
+  unfold gf_compute_gen, gf_prepared. cbn [g_status g_vanishing g_parts].
   destruct ps as [|p0 pr] eqn:Eps.
   - (* vanishing component *)
     cbn [negb map]. do 3 eexists. split; [reflexivity|]. split; [reflexivity|]. split; [apply repeat_length|].
@@ -675,7 +675,7 @@ Definition wit_parts (cx4 : fieldop Z) : list (part_in Z) :=
     returns the value 0 for that triple (TwoParticleGF.cpp:158-163: the table is sized inside `if (!Vanishing)`) *)
 Theorem table_eq_on_demand_refuted :
   exists (ps : list (part_in Z)) (freqs : list (Z * Z * Z)) (clear : bool) table s',
-    gf_compute Z Zops false 0 Ztols clear freqs (gf_prepared Z ps) = Done (table, s') /\
+    gf_compute_gen Z Zops false false 0 Ztols clear freqs (gf_prepared Z ps) = Done (table, s') /\
     length table <> length freqs /\
     (forall f, In f freqs -> gf_value Z Zops Ztols s' (fst (fst f)) (snd (fst f)) (snd f) = Done 0%Z).
 Proof.
@@ -687,10 +687,10 @@ Qed.
     `&m_data[0]` is taken on an empty vector (TwoParticleGF.cpp:176), undefined behaviour; the model reports OOB *)
 Theorem table_empty_freqs_undefined :
   exists (ps : list (part_in Z)) (clear : bool),
-    ps <> [] /\ gf_compute Z Zops false 0 Ztols clear [] (gf_prepared Z ps) = OOB.
+    ps <> [] /\ gf_compute_gen Z Zops false false 0 Ztols clear [] (gf_prepared Z ps) = OOB.
 Proof. exists (wit_parts wit_cdag), false. vm_compute. split; [discriminate|reflexivity]. Qed.
 
 (** the repaired compute on the same witnesses *)
 Example table_fixed_on_witness :
-  exists s', gf_compute Z Zops true 0 Ztols false [(1, 3, 5)%Z] (gf_prepared Z (wit_parts wit_none)) = Done ([0%Z], s').
+  exists s', gf_compute_gen Z Zops true true 0 Ztols false [(1, 3, 5)%Z] (gf_prepared Z (wit_parts wit_none)) = Done ([0%Z], s').
 Proof. vm_compute. eexists. reflexivity. Qed.
